@@ -2,7 +2,7 @@
    ExtrOcamlBasic only: bool, option, unit, list, prod, sumbool map to OCaml's;
    nat, positive, N, Z stay inductive.  No Extract Constant. *)
 From Coq Require Import Extraction ExtrOcamlBasic.
-From JP Require Import Base Json PyStr Fluent ListSpec Pointer RelPointer Patch Rfc6901 RelPtrDraft PointerDomain Rfc6902 Edit Syntax Eval Regex Rfc9535.
+From JP Require Import Base Json PyStr Fluent ListSpec Pointer RelPointer Patch Rfc6901 RelPtrDraft PointerDomain Rfc6902 Edit Syntax Eval EvalAsync Regex Rfc9535 Rfc9535Typing.
 Extraction Language OCaml.
 Extraction "extract/model.ml"
   Fluent.observe ListSpec.sobserve
@@ -19,5 +19,7 @@ Extraction "extract/model.ml"
   Rfc6902.rfc_apply Rfc6902.rfc_op Edit.replace_at Edit.delete_at Edit.doc_addne Edit.doc_addap Pointer.of_loc
   Syntax.default_env Syntax.fexprs_of Syntax.sels_of Syntax.segs_of
   Eval.finditer Eval.findall Eval.match_ Eval.compound_findall Eval.compound_finditer Eval.filter_compare Eval.eval_f
+  EvalAsync.compound_finditer_async EvalAsync.compound_findall_async
   Regex.regex_fullmatch Regex.regex_search
-  Rfc9535.nodelist Rfc9535.rfc_compare Rfc9535.l_test Rfc9535.rfc_slice_indices.
+  Rfc9535.nodelist Rfc9535.query_nodes Rfc9535.rfc_compare Rfc9535.l_test Rfc9535.rfc_slice_indices
+  Rfc9535Typing.std_query Rfc9535Typing.ext_query.
